@@ -25,6 +25,11 @@ RULE = ("direction 1: case = (head name, argument items with literal kind and "
         "single option per alpha kind + pairwise cover + Hypothesis draws): "
         "str(q) must not raise, get_quantizer(str(q)) must build and give "
         "bit-equal outputs on 2 probe tensors (rank 1 and 2) under learning phase 0 and 1. "
+        "value carriers ('vt'): every non-default numeric option value of the "
+        "lattice (in its smallest enabling configuration) is also handed over "
+        "as np.float16/32/64, np.int32/64 (ints, integral floats, int lists "
+        "element-wise), np.bool_ and as Python int for an integral float; "
+        "Hypothesis draws carry a random subset of the numeric options. "
         "Non-trivial: text cases with >= 1 argument; configurations with >= 1 "
         "non-default option whose original returned on some probe.")
 ASSUMPTIONS = [
@@ -44,8 +49,24 @@ ASSUMPTIONS = [
     "options (values included) that still shows it; a mismatch is attributed "
     "to the options the re-parsed quantizer lost (behavioural test against a "
     "directly built quantizer without them)",
+    "value carriers never change the value (lattice values are small dyadic "
+    "numbers, checked: HarnessError otherwise); a carried configuration is "
+    "only judged when the library accepts the carrier, i.e. the ORIGINAL "
+    "quantizer built with the carried values gives bit-equal outputs to the "
+    "one built with plain Python values (label carrier_accepted; otherwise "
+    "carrier_rejected and only the plain configuration is judged); failures "
+    "that the plain configuration shows as well are reported once, without "
+    "carrier; a carrier-only failure carries the 1-minimal carrier set in "
+    "the signature as option:family (np.floating / np.integer / np.bool_ / "
+    "int)",
 ]
 BUDGET_S = {"quick": 70, "thorough": 840}
+# carrier name -> family used in failure signatures (see "value carriers")
+CARRIER_FAMILY = {"np.float16": "np.floating", "np.float32": "np.floating",
+                  "np.float64": "np.floating", "np.int32": "np.integer",
+                  "np.int64": "np.integer", "np.bool_": "np.bool_",
+                  "int": "int"}
+CARRIER_NAMES = sorted(CARRIER_FAMILY)
 _LITS = ["lit:int", "lit:float", "lit:bool", "lit:none", "lit:str", "lit:list",
          "lit:list1"]
 _REQ = (["stub", "order", "exotic", "quant", "str_lattice", "str_hyp", "seq",
@@ -53,7 +74,8 @@ _REQ = (["stub", "order", "exotic", "quant", "str_lattice", "str_hyp", "seq",
          "seq_op:get_quantizer", "seq_op:str_rt", "seq_op:getparams",
          "slot:pos", "slot:kw", "ws", "sentinel_text", "quant_built",
          "mutate:trainable", "mutate:qdense", "mutate:assign_symmetric",
-         "orig_ok"] + _LITS + ["str:" + c for c in O.CLASSES] +
+         "orig_ok", "carrier_accepted"] +
+        ["carrier:" + c for c in CARRIER_NAMES] + _LITS + ["str:" + c for c in O.CLASSES] +
         ["head:" + c for c in O.CLASSES])
 REQUIRED_LABELS = {"quick": _REQ, "thorough": _REQ}
 
@@ -553,6 +575,59 @@ def text_oracle(ctx, case):
 # direction 2: print -> parse
 
 
+# value carriers: the same option value handed over as another numeric Python
+# type (numpy scalars are what np.mean / np.max / an element of an int array
+# give; np.float64 even is a `float`).  A carrier never changes the value
+# (every lattice value is dyadic and small), only its type.
+
+
+def carriers_for(v):
+  """Carriers applicable to the JSON option value v."""
+  if isinstance(v, bool):
+    return ["np.bool_"]
+  if isinstance(v, int):
+    return ["np.int64", "np.int32"]
+  if isinstance(v, float):
+    out = ["np.float32", "np.float64", "np.float16"]
+    if v == int(v):
+      out += ["int", "np.int64"]
+    return out
+  if isinstance(v, list) and v and all(
+      isinstance(e, int) and not isinstance(e, bool) for e in v):
+    return ["np.int64"]
+  return []
+
+
+def carry(v, c):
+  if isinstance(v, list):
+    return [carry(e, c) for e in v]
+  if c not in CARRIER_FAMILY or c not in carriers_for(v):
+    raise core.HarnessError("carrier %r does not apply to %r" % (c, v))
+  w = int(v) if c == "int" else getattr(np, c[3:])(v)
+  if not (w == v and float(w) == float(v)):
+    raise core.HarnessError("carrier %r changes the value %r" % (c, v))
+  return w
+
+
+def carry_kw(kw, vt):
+  if not vt:
+    return kw
+  return {k: (carry(v, vt[k]) if k in vt else v) for k, v in kw.items()}
+
+
+def _vt_sub(vt, kw):
+  return {k: c for k, c in sorted((vt or {}).items()) if k in kw}
+
+
+def _plain(v):
+  """numpy scalars (and lists of them) as the Python number they carry."""
+  if isinstance(v, np.generic):
+    return v.item()
+  if isinstance(v, (list, tuple)):
+    return type(v)(_plain(e) for e in v)
+  return v
+
+
 class _Memo(dict):
   def bounded(self, n=1500):
     if len(self) > n:
@@ -563,14 +638,15 @@ _ev_memo = _Memo()
 _direct_memo = _Memo()
 
 
-def _observe_direct(cls, kw, probes, seed, mutate=None):
-  key = O.jkey([cls, kw, probes, seed, mutate])
+def _observe_direct(cls, kw, probes, seed, mutate=None, vt=None):
+  vt = _vt_sub(vt, kw)
+  key = O.jkey([cls, kw, probes, seed, mutate, vt])
   if key not in _direct_memo:
     _direct_memo.bounded(6000)
     try:
       _direct_memo[key] = O.observe(
-          O.build(cls, kw, {"mutate": mutate} if mutate else None), probes,
-          seed)
+          O.build(cls, carry_kw(kw, vt), {"mutate": mutate} if mutate else None),
+          probes, seed)
     finally:
       core.reset_globals()
   return _direct_memo[key]
@@ -579,15 +655,17 @@ def _observe_direct(cls, kw, probes, seed, mutate=None):
 class Ev(object):
   """One configuration printed and parsed back."""
 
-  def __init__(self, cls, kw, probes, seed, mutate=None):
+  def __init__(self, cls, kw, probes, seed, mutate=None, vt=None):
     from qkeras import quantizers as Q  # pylint: disable=g-import-not-at-top
     self.cls, self.kw, self.probes, self.seed = cls, kw, probes, seed
+    self.vt = vt or {}
     self.ctor, self.detail, self.text = True, {}, None
     self._fid = {}
     self._obs = self._robs = None
     self.q2 = None
     try:
-      self.q = O.build(cls, kw, {"mutate": mutate} if mutate else None)
+      self.q = O.build(cls, carry_kw(kw, self.vt),
+                       {"mutate": mutate} if mutate else None)
     except Exception as e:  # pylint: disable=broad-except
       self.ctor = False
       self.detail["ctor"] = repr(e)[:200]
@@ -631,7 +709,10 @@ class Ev(object):
     out = []
     for k in sorted(self.kw):
       try:
-        same = _attr_same(getattr(self.q2, k), getattr(self.q, k)) is None
+        # the carrier type of the original's value is not a difference
+        a = getattr(self.q, k)
+        same = _attr_same(getattr(self.q2, k),
+                          _plain(a) if self.vt else a) is None
       except Exception:  # pylint: disable=broad-except
         same = False
       if not same:
@@ -670,18 +751,30 @@ class Ev(object):
     return self._fid[route]
 
 
-def evaluate(cls, kw, probes, seed, mutate=None):
-  key = O.jkey([cls, kw, probes, seed, mutate])
+def evaluate(cls, kw, probes, seed, mutate=None, vt=None):
+  vt = _vt_sub(vt, kw)
+  key = O.jkey([cls, kw, probes, seed, mutate, vt])
   if key not in _ev_memo:
     _ev_memo.bounded()
-    _ev_memo[key] = Ev(cls, kw, probes, seed, mutate)
+    _ev_memo[key] = Ev(cls, kw, probes, seed, mutate, vt)
   return _ev_memo[key]
+
+
+def _analyse(ctx, cls, kw, probes, seed, mut, vt, extra):
+  return O.analyse(
+      cls, kw, ROUTE,
+      lambda k: evaluate(cls, k, probes, seed, mut, vt),
+      lambda k: _observe_direct(cls, k, probes, seed, mut, vt),
+      lambda sg: ctx.is_known("str_roundtrip", dict(sg, cls=cls, **extra)),
+      with_scale=False,
+      unexplained=lambda e: {"attrs_differ": e.attrs_differ()})
 
 
 def str_oracle(ctx, case, stats=None):
   cls, kw = case["cls"], O.nondefault(case["cls"], case["kw"])
   probes, seed = case["probes"], case["seed"]
   mut = case.get("mutate") or None
+  vt = _vt_sub(case.get("vt"), kw)
   extra = {"mutation": O.mutation_name(mut)} if mut else {}
   ev = evaluate(cls, kw, probes, seed, mut)
   if stats is not None:
@@ -693,24 +786,57 @@ def str_oracle(ctx, case, stats=None):
   out, seen = [], set()
   if not ev.ctor:
     return out
-  for sig, detail, m in O.analyse(
-      cls, kw, ROUTE,
-      lambda k: evaluate(cls, k, probes, seed, mut),
-      lambda k: _observe_direct(cls, k, probes, seed, mut),
-      lambda sg: ctx.is_known("str_roundtrip", dict(sg, cls=cls, **extra)),
-      with_scale=False,
-      unexplained=lambda e: {"attrs_differ": e.attrs_differ()}):
+
+  def emit(sig, detail, m, vm):
     s2 = {"cls": cls}
     s2.update(sig)
     s2.update(extra)
+    if vm:
+      s2["carrier"] = ",".join("%s:%s" % (k, CARRIER_FAMILY[vm[k]])
+                               for k in sorted(vm))
+      detail = "with %s: %s" % (
+          ",".join("%s as %s" % (k, vm[k]) for k in sorted(vm)), detail)
     if mut:
       detail = "after %s: %s" % (O.jkey(mut), detail)
     k = core.fkey("str_roundtrip", s2)
     if k not in seen:
       seen.add(k)
-      out.append(("str_roundtrip", s2, detail,
-                  dict({"cls": cls, "kw": m, "probes": probes, "seed": seed},
-                       **({"mutate": mut} if mut else {}))))
+      mc = {"cls": cls, "kw": m, "probes": probes, "seed": seed}
+      if mut:
+        mc["mutate"] = mut
+      if vm:
+        mc["vt"] = vm
+      out.append(("str_roundtrip", s2, detail, mc))
+
+  plain = _analyse(ctx, cls, kw, probes, seed, mut, None, extra)
+  for sig, detail, m in plain:
+    emit(sig, detail, m, None)
+  if not vt:
+    return out
+  # the same configuration with some values carried by another numeric type.
+  # Precondition (domain, not oracle): the library accepts the carrier, i.e.
+  # the original behaves exactly as with the plain Python value.
+  evc = evaluate(cls, kw, probes, seed, mut, vt)
+  ok = evc.ctor and O.obs_diff(ev.obs(), evc.obs(), probes,
+                               with_scale=False) is None
+  if stats is not None:
+    stats["carrier_accepted" if ok else "carrier_rejected"] = True
+  if not ok:
+    return out
+  psigs = set(core.fkey("str_roundtrip", s) for s in
+              (dict(sig) for sig, _, _ in plain))
+  for sig, detail, m in _analyse(ctx, cls, kw, probes, seed, mut, vt, extra):
+    if core.fkey("str_roundtrip", dict(sig)) in psigs:
+      continue    # fails without the carriers as well: reported above
+    vm = _vt_sub(vt, m)
+    if not ctx.is_known("str_roundtrip", dict(sig, cls=cls, **extra)):
+      # 1-minimal set of carriers that still shows this failure
+      for k in sorted(vm):
+        v2 = {a: b for a, b in vm.items() if a != k}
+        if any(s_ == sig for s_, _, _ in
+               _analyse(ctx, cls, m, probes, seed, mut, v2, extra)):
+          vm = v2
+    emit(sig, detail, m, vm)
   return out
 
 
@@ -718,7 +844,11 @@ def _str_labels(case, st):
   cls = case["cls"]
   labs = ["str:" + cls]
   labs += ["opt:%s.%s" % (cls, p) for p in sorted(case["kw"])]
-  labs += [k for k in ("orig_ok", "printed", "reparsed") if st.get(k)]
+  labs += [k for k in ("orig_ok", "printed", "reparsed", "carrier_accepted",
+                       "carrier_rejected") if st.get(k)]
+  for p, c in sorted((case.get("vt") or {}).items()):
+    if p in case["kw"]:
+      labs += ["carrier:" + c, "copt:%s.%s" % (cls, p)]
   if case.get("mutate"):
     labs.append("mutate:" + O.mutation_name(case["mutate"]))
   return labs
@@ -727,9 +857,44 @@ def _str_labels(case, st):
 # ---------------------------------------------------------------------------
 
 
+def carrier_cases(cfgs):
+  """Every non-default numeric value of every option (in its smallest
+  enabling lattice configuration) under every carrier that applies to it."""
+  best = {}
+  for c in cfgs:
+    kw = c["kw"]
+    o = c.get("single") or (sorted(kw)[0] if len(kw) == 1 else None)
+    if o is None or not carriers_for(kw[o]):
+      continue
+    k = (c["cls"], o, O.jkey(kw[o]))
+    if k not in best or len(kw) < len(best[k]):
+      best[k] = kw
+  out = []
+  for (cls, o, _), kw in sorted(best.items()):
+    for c in carriers_for(kw[o]):
+      out.append({"cls": cls, "kw": kw, "probes": PROBES, "seed": SEED,
+                  "vt": {o: c}})
+  return out
+
+
 def run(ctx):
   O.check_signatures()
   from hypothesis import strategies as st_  # pylint: disable=g-import-not-at-top
+
+  # direction 1: Hypothesis over the grammar.  The pure parsing modes cost
+  # microseconds per case and run first, so that a slow (loaded) machine that
+  # exhausts the budget in the lattice still has explored them.
+  def torc(case):
+    return text_oracle(ctx, case)
+
+  q = ctx.quick
+  per = lambda a, b: (a if q else b) // ctx.n + 1   # noqa: E731
+  core.hyp_run(ctx, L.stub_case_strategy(HEADS), torc, per(4800, 60000),
+               name="c10_stub")
+  core.hyp_run(ctx, L.order_case_strategy(HEADS), torc, per(1600, 40000),
+               name="c10_order")
+  core.hyp_run(ctx, L.exotic_case_strategy(HEADS), torc, per(2400, 60000),
+               name="c10_exotic")
 
   # direction 2 over the deterministic lattice
   cfgs, info = O.lattice(ctx.tier)
@@ -749,6 +914,8 @@ def run(ctx):
                      "seed": SEED,
                      "mutate": dict(m, **({"after_call": True} if j % 2 else
                                           {}))})
+  # the carrier cases are cheap (no failure analysis on a healthy tree): first
+  lcases = carrier_cases(cfgs) + lcases
   for case in ctx.shard(lcases):
     if ctx.time_left() <= 0:
       ctx.labels["inconclusive_time"] += 1
@@ -761,18 +928,7 @@ def run(ctx):
     for sc, sig, detail, mc in fails:
       ctx.fail(sc, sig, mc, detail)
 
-  # direction 1: Hypothesis over the grammar
-  def torc(case):
-    return text_oracle(ctx, case)
-
-  q = ctx.quick
-  per = lambda a, b: (a if q else b) // ctx.n + 1   # noqa: E731
-  core.hyp_run(ctx, L.stub_case_strategy(HEADS), torc, per(4800, 60000),
-               name="c10_stub")
-  core.hyp_run(ctx, L.order_case_strategy(HEADS), torc, per(1600, 40000),
-               name="c10_order")
-  core.hyp_run(ctx, L.exotic_case_strategy(HEADS), torc, per(2400, 60000),
-               name="c10_exotic")
+  # direction 1, objects (needs quantizer calls)
   core.hyp_run(ctx, quant_case_strategy(), torc, per(480, 6000),
                name="c10_quant")
 
@@ -797,6 +953,14 @@ def run(ctx):
       if draw(st_.booleans()):
         m["after_call"] = True
       case["mutate"] = m
+    if draw(st_.integers(0, 2)) == 0:
+      vt = {}
+      for p_ in sorted(c["kw"]):
+        cs = carriers_for(c["kw"][p_])
+        if cs and draw(st_.booleans()):
+          vt[p_] = draw(st_.sampled_from(cs))
+      if vt:
+        case["vt"] = vt
     return case
 
   def sorc(case):
